@@ -70,15 +70,19 @@ def parts(mm):
 
 ENTRIES = ["model_matrix", "Formula.get_model_matrix", "ModelSpec.from_spec.get_model_matrix", "Materializer(data).get_model_matrix", "reuse-spec",
            "model_matrix(spec, **overrides)", "model_matrix(matrix, **overrides)", "spec.get_model_matrix(**overrides)"]
-MATS = ["pandas", "narwhals/pandas", "narwhals/arrow"]
+MATS = ["pandas", "narwhals/pandas", "narwhals/arrow", "pandas/dict", "pandas/recarray"]
 
 
 def build(formula, df, entry, mat, output, na_action):
     data = to_arrow(df) if mat == "narwhals/arrow" else df
+    if mat == "pandas/dict":
+        data = {c_: df[c_].to_numpy() if df[c_].dtype.kind in "fiu" else list(df[c_]) for c_ in df.columns}  # a plain dict of columns
+    elif mat == "pandas/recarray":
+        data = df.to_records(index=False)
     opts = {"output": output, "na_action": na_action}
-    mname = "pandas" if mat == "pandas" else "narwhals"
+    mname = "pandas" if mat.startswith("pandas") else "narwhals"
     if entry == "Materializer(data).get_model_matrix":
-        cls = PandasMaterializer if mat == "pandas" else NarwhalsMaterializer
+        cls = PandasMaterializer if mat.startswith("pandas") else NarwhalsMaterializer
         return cls(data).get_model_matrix(formula, **opts)
     if mat != "narwhals/arrow":
         opts["materializer"] = mname  # on an arrow table the registry must pick narwhals by itself
@@ -113,6 +117,8 @@ def drv(c, ctx, col):
     df = ctx["frame_objs"][fname]
     if fname.startswith("nulls") and na_action == "ignore" and any(t in formula for t in ("poly(", "bs(", "center(", "scale(")):
         raise Skip()  # stateful numeric transforms on data with unhandled nulls: behaviour not specified
+    if mat in ("pandas/dict", "pandas/recarray") and fname != "clean":
+        raise Skip()  # plain containers: exercised on the clean frame only (None / categorical cells have no recarray representation)
     if fname == "categorical-dtype" and mat == "narwhals/arrow":
         # a pandas categorical becomes an arrow dictionary column; narwhals hands those over as plain text (sorted levels, unused
         # entries dropped).  Whether an arrow dictionary's order is a "declared order" is not documented: classed unspecified (as in C08).
